@@ -1,5 +1,5 @@
 """C02 - Document coordinates and motion queries.
-Model: coq/Model/Document.v + coq/Model/C02_DocQueries.v; theorems: coq/Props/C02.v.
+Model: coq/Model/Document.v + coq/Model/C02_{DocQueries,More,Cache,Run}.v; theorems: coq/Props/C02.v.
 
 A case is (text, cursor, [op ...]); every op is one query of a real
 prompt_toolkit.document.Document and of the Coq model (run_C02).  The oracle
@@ -18,9 +18,27 @@ RAND_ALPHA = ["a", "b", "B", "Z", "0", "_", ".", ",", "-", " ", " ", " ", "\n", 
               " ", " ", "　", "(", ")", "[", "]", "{", "}", "<", ">", '"', "'", "界", "\U0001F600", "ß"]
 
 sys.path.insert(0, os.path.join(VERIF, "gen"))
-from gen_t_c02 import FOLD_EXTRA  # noqa: cased non-ASCII characters covered by the regenerated fold table
+from gen_t_c02 import FOLD_EXTRA, FOLD_UNCASED, cased_code_points  # noqa
 FOLD_SMALL = ["a", "A", "s", "S", "\u00df", "\u1e9e", "\u017f", "\u0130", "i", "I", "\u0131", "\ufb01", "f",
               "k", "\u212a", "\u01f0", "\u0390", "\u00e9", "\u00c9", " ", "\n"]
+# the regenerated re.IGNORECASE table covers EVERY cased code point; uncased characters must be listed in
+# gen_t_c02.FOLD_UNCASED (checked there to match only themselves)
+CASED = frozenset(map(chr, cased_code_points()))
+FOLD_G = CASED | frozenset(FOLD_UNCASED)
+# cased letters beyond the round-4 list: other scripts, titlecase digraphs, symbols that fold onto letters
+# (Ohm, Angstrom, Kelvin), the sre "equivalences" (iota/ypogegrammeni/prosgegrammeni, beta/theta/phi/pi/rho
+# symbols, long s t ligatures, Cyrillic Extended-C), astral (Deseret, Osage, Adlam, Warang Citi)
+FOLD_WIDE = ("\u01c4\u01c5\u01c6\u01f1\u01f2\u01f3\u0345\u0399\u03b9\u1fbe\u2126\u03a9\u03c9\u212b\u00c5\u00e5"
+             "\u03b2\u03d0\u0392\u03b8\u03d1\u03f4\u0398\u03c6\u03d5\u03a6\u03c0\u03d6\u03a0\u03c1\u03f1\u03a1\u03ba\u03f0\u039a"
+             "\u03b5\u03f5\u0395\ufb05\ufb06\u1c80\u0432\u0412\u1c88\ua64a\ua64b\u1e61\u1e9b\u1e60"
+             "\u0434\u0414\u1c81\u0561\u0531\u10d0\u1c90\u13a0\uab70\u13f8\u13f0\uff21\uff41\u24b6\u24d0\u2160\u2170"
+             "\U00010400\U00010428\U000104b0\U000104d8\U0001e900\U0001e922\U000118a0\U000118c0\u0130\u0131\u1e9e\u00df")
+for _name, _al in (("ALPHA", ALPHA), ("RAND_ALPHA", RAND_ALPHA), ("FOLD_SMALL", FOLD_SMALL), ("FOLD_WIDE", FOLD_WIDE)):
+    _out = [c for c in _al if c not in FOLD_G]
+    if _out:
+        raise SystemExit("harness/c02.py: %s has characters outside the regenerated IGNORECASE alphabet: %r" % (_name, _out))
+if not all(c in CASED for c in FOLD_WIDE):
+    raise SystemExit("harness/c02.py: FOLD_WIDE has uncased characters: %r" % [c for c in FOLD_WIDE if c not in CASED])
 
 OPNAMES = {1: "views", 2: "translate_index_to_position", 3: "translate_row_col_to_index",
            4: "get_cursor_left_position", 5: "get_cursor_right_position", 6: "get_cursor_up_position",
@@ -32,7 +50,57 @@ OPNAMES = {1: "views", 2: "translate_index_to_position", 3: "translate_row_col_t
            20: "find_next_word_beginning", 21: "find_next_word_ending", 22: "find_previous_word_beginning",
            23: "find_previous_word_ending", 24: "find_enclosing_bracket_right", 25: "find_enclosing_bracket_left",
            26: "find_matching_bracket_position", 27: "start_of_paragraph", 28: "end_of_paragraph",
-           29: "get_word_before_cursor", 30: "get_word_under_cursor", 31: "empty_line_count_at_the_end"}
+           29: "get_word_before_cursor", 30: "get_word_under_cursor", 31: "empty_line_count_at_the_end",
+           32: "find_start_of_previous_word(pattern=)", 33: "get_word_before_cursor(pattern=)"}
+
+# pattern= : (kind, s1, s2) with kind 0: [s1]+|[s2]+ (s2 empty: [s1]+), 1: [^s1]+, 2: ^[s1]*
+WORD_ALPHABET = "abcdefghijklmnopqrstuvwxyzABCDEFGHIJKLMNOPQRSTUVWXYZ0123456789_"
+_PATS = {}
+
+
+def re_space_chars():
+    import re as _r
+    return "".join(chr(c) for c in range(0x110000) if not (0xD800 <= c <= 0xDFFF) and _r.match(r"\s", chr(c)))
+
+
+RE_SPACE = re_space_chars()
+
+
+def mk_pattern(p):
+    """the compiled regex for a pattern triple; the pattern strings the code base itself uses are taken
+    literally (FuzzyCompleter: `^[a-zA-Z0-9_]*` and `[^\\s]+`; `[a-zA-Z0-9_]+`)"""
+    import re as _r
+    kind, s1, s2 = p[0], unS(p[1]), unS(p[2])
+    key = (kind, s1, s2)
+    r = _PATS.get(key)
+    if r is None:
+        esc = lambda cs: "".join(_r.escape(c) for c in cs)  # noqa
+        if kind == 2 and s1 == WORD_ALPHABET:
+            src = r"^[a-zA-Z0-9_]*"
+        elif kind == 1 and s1 == RE_SPACE:
+            src = r"[^\s]+"
+        elif kind == 0 and s1 == WORD_ALPHABET and not s2:
+            src = r"[a-zA-Z0-9_]+"
+        elif kind == 0:
+            src = "[%s]+" % esc(s1) + ("|[%s]+" % esc(s2) if s2 else "")
+        elif kind == 1:
+            src = "[^%s]+" % esc(s1)
+        else:
+            src = "^[%s]*" % esc(s1)
+        r = _PATS[key] = _r.compile(src)
+    return r
+
+
+def pat_cls(p, c):
+    kind, s1, s2 = p[0], unS(p[1]), unS(p[2])
+    if kind == 1:
+        return 0 if c in s1 else 1
+    return 1 if c in s1 else (2 if kind == 0 and c in s2 else 0)
+
+
+FIXED_PATS = [[0, S("a_"), S("")], [0, S("a_"), S(".(")], [0, S("."), S("a\u754c")], [1, S(" \n"), S("")], [1, S("a"), S("")],
+              [2, S("a_"), S("")], [2, S(WORD_ALPHABET), S("")], [1, S(RE_SPACE), S("")], [0, S(WORD_ALPHABET), S("")]]
+
 
 
 def O(v):
@@ -123,6 +191,10 @@ def impl_call(d, op):
         return S(d.get_word_under_cursor(WORD=bool(op[1])))
     if k == 31:
         return d.empty_line_count_at_the_end()
+    if k == 32:
+        return O(d.find_start_of_previous_word(count=op[1], WORD=bool(op[2]), pattern=mk_pattern(op[3])))
+    if k == 33:
+        return S(d.get_word_before_cursor(WORD=bool(op[1]), pattern=mk_pattern(op[2])))
     raise ValueError(k)
 
 
@@ -298,6 +370,9 @@ def _oracle_op(t, cur, op, res, d):
     name = OPNAMES[k]
     if res[0] == 98:
         return (name + " did not terminate", "hang")
+    if k in (32, 33) and op[2 if k == 32 else 1]:
+        # `assert not (WORD and pattern)`: the documented precondition; nothing else to judge
+        return None if res == [1] else (name + ": WORD together with pattern did not raise AssertionError", "raise")
     if res[0] != 0:
         return (name + " raised", "raise")       # no query of Document may raise for a valid document
     v = res[1]
@@ -335,6 +410,18 @@ def _oracle_op(t, cur, op, res, d):
             return ("views: current_line != lines[row]", "views")
         if v[10] != int(row == 0) or v[11] != int(row == len(ls) - 1):
             return ("views: on_first_line/on_last_line", "views")
+        # the character views (theorem C02_views_chars)
+        if v[12] != ([ord(t[cur])] if cur < n else []):
+            return ("views: current_char is not the character at the cursor", "views")
+        if cur > 0 and v[13] != [ord(t[cur - 1])]:
+            return ("views: char_before_cursor is not the character before the cursor", "views")
+        if v[14] != int(cur == n) or v[15] != int(cur == e):
+            return ("views: is_cursor_at_the_end / is_cursor_at_the_end_of_line", "views")
+        cl_ = t[a:e]
+        if unS(v[16]) != cl_[:len(cl_) - len(cl_.lstrip())]:
+            return ("views: leading_whitespace_in_current_line", "views")
+        if [unS(x) for x in v[17]] != lines[row:]:
+            return ("views: lines_from_current is not lines[row:]", "views")
         return None
     if k == 2:
         i = op[1]
@@ -566,9 +653,26 @@ def _oracle_op(t, cur, op, res, d):
         return None
     if k in (24, 25):
         r = unO(v)
+        l, rr, lim = chr(op[1]), chr(op[2]), unO(op[3])
+        # exactly (C02_bracket_scanners_exact): 0 on the bracket itself, otherwise THE first position of the
+        # span up to the limit that holds the partner with a balanced span in between; None iff there is none
+        if k == 24:
+            if t[cur:cur + 1] == rr:
+                want = 0
+            else:
+                hi = n if lim is None else min(n, lim)
+                want = next((i - cur for i in range(cur + 1, hi) if l != rr and t[i] == rr and balanced(t[cur + 1:i], l, rr)), None)
+        else:
+            if t[cur:cur + 1] == l:
+                want = 0
+            else:
+                lo = 0 if lim is None else max(0, lim)
+                want = next((i - cur for i in range(cur - 1, lo - 1, -1)
+                             if l != rr and t[i] == l and balanced(t[i + 1:cur][::-1], rr, l)), None)
+        if r != want:
+            return ("%s(%r, %r, limit=%r): answer %r, the enclosing bracket is at offset %r" % (name, l, rr, lim, r, want), "exact")
         if r is None:
             return None
-        l, rr, lim = chr(op[1]), chr(op[2]), unO(op[3])
         bad = bounds(r)
         if bad:
             return bad
@@ -640,6 +744,69 @@ def _oracle_op(t, cur, op, res, d):
                 if tgt != exp:
                     return ("end_of_paragraph(count=%d, after=%r): target %d, expected %d = (blank row %d, clipped column) %s"
                             % (op[1], bool(op[2]), tgt, exp, B, "" if op[2] else "- 1"), "lands")
+        return None
+    if k in (29, 30):
+        W = bool(op[1])
+        w = unS(v)
+        if k == 29:
+            # empty, or exactly the characters from the start of the previous word to the cursor
+            # (C02_word_before_cursor + C02_previous_word_beginning_exact)
+            if cur == 0 or t[cur - 1].isspace():
+                want = ""
+            else:
+                j = cur - 1
+                while j > 0 and cls(t[j - 1], W) == cls(t[cur - 1], W) and cls(t[cur - 1], W) != 0:
+                    j -= 1
+                want = t[j:cur] if cls(t[cur - 1], W) != 0 else None
+            if want is not None and w != want:
+                return ("get_word_before_cursor: answer %r, the word before the cursor is %r" % (w, want), "lands")
+        else:
+            s0, e0 = d.find_boundaries_of_current_word(WORD=W)
+            if w != t[cur + s0:cur + e0]:
+                return ("get_word_under_cursor is not the text between the boundaries of the current word", "lands")
+        return None
+    if k == 31:
+        # exactly the number of trailing blank lines (C02_empty_line_count_exact)
+        cnt = 0
+        for l in reversed(lines):
+            if l.strip() == "":
+                cnt += 1
+            else:
+                break
+        if v != cnt:
+            return ("empty_line_count_at_the_end: answer %d, the text ends with %d blank line(s)" % (v, cnt), "lands")
+        return None
+    if k in (32, 33):
+        p = op[3] if k == 32 else op[2]
+        kind = p[0]
+        # the count-th previous match of the pattern, scanning backwards from the cursor
+        # (C02_start_of_previous_word_pattern_exact): runs of one class of the pattern; for `^[s]*` the run of
+        # s-characters immediately before the cursor, once
+        def start_for(cnt):
+            if cnt < 1:
+                return None
+            if kind == 2:
+                j = cur
+                while j > 0 and pat_cls(p, t[j - 1]) == 1:
+                    j -= 1
+                return (j - cur) if cnt == 1 else None
+            cat = lambda i: pat_cls(p, t[i]) if 0 <= i < cur else 0  # noqa
+            cands = [j for j in range(cur - 1, -1, -1) if cat(j) != 0 and cat(j - 1) != cat(j)]
+            return cands[cnt - 1] - cur if len(cands) >= cnt else None
+        if k == 32:
+            r = unO(v)
+            if op[1] >= 1:
+                want = start_for(op[1])
+                if r != want:
+                    return ("find_start_of_previous_word(count=%d, pattern=%r): answer %r, the count-th match before the cursor starts at offset %r"
+                            % (op[1], mk_pattern(p).pattern, r, want), "nth")
+            if r is not None:
+                return bounds(r) or (None if r <= 0 else ("find_start_of_previous_word(pattern=): target after the cursor", "lands"))
+            return None
+        st = start_for(1)
+        want = "" if st is None else t[cur + st:cur]
+        if unS(v) != want:
+            return ("get_word_before_cursor(pattern=%r): answer %r, expected %r" % (mk_pattern(p).pattern, unS(v), want), "lands")
         return None
     return None
 
@@ -716,6 +883,11 @@ def ops_for(t, cur, full=True):
         for b in (0, 1):
             ops += [[27, cnt, b], [28, cnt, b]]
     ops.append([31])
+    for pt in FIXED_PATS:
+        for cnt in (-1, 0, 1, 2, 3):
+            ops.append([32, cnt, 0, pt])
+        ops.append([33, 0, pt])
+    ops += [[32, 1, 1, FIXED_PATS[0]], [33, 1, FIXED_PATS[5]]]
     return ops
 
 
@@ -735,8 +907,9 @@ def rand_text(rng, maxlen):
 
 
 def uncased_outside_ascii(s):
-    """every non-ASCII character is uncased or covered by the regenerated fold table"""
-    return all(ord(c) < 128 or c in FOLD_EXTRA or (c.lower() == c and c.upper() == c and c.casefold() == c) for c in s)
+    """every character is cased (the regenerated table covers all of them) or an uncased character the
+    table generator checked to match only itself"""
+    return all(c in FOLD_G for c in s)
 
 
 def is_cased(s):
@@ -773,7 +946,7 @@ def rand_ops(rng, t, cur, k):
     oi = lambda: rng.choice([[], [], [rng.randint(-2, n + 2)]])  # noqa
     b = lambda: rng.randint(0, 1)  # noqa
     for _ in range(k):
-        code = rng.choice(list(range(1, 32)) + [14, 15, 14, 15, 19, 20, 21, 22, 23, 23, 24, 25, 26, 26, 27, 28, 6, 7, 10])
+        code = rng.choice(list(range(1, 34)) + [14, 15, 14, 15, 19, 20, 21, 22, 23, 23, 24, 25, 26, 26, 27, 28, 6, 7, 10, 32, 33])
         if code in (1, 9, 10, 12, 13, 31):
             ops.append([code])
         elif code == 2:
@@ -818,6 +991,18 @@ def rand_ops(rng, t, cur, k):
             ops.append([code, cnt(), b()])
         elif code in (29, 30):
             ops.append([code, b()])
+        elif code in (32, 33):
+            if rng.random() < 0.3:
+                pt = rng.choice(FIXED_PATS)
+            else:
+                pool = sorted(set(t)) or ["a"]
+                s1 = rng.sample(pool, rng.randint(1, min(4, len(pool))))
+                rest = [c for c in pool if c not in s1]
+                kind = rng.choice([0, 0, 1, 2])
+                s2 = rng.sample(rest, rng.randint(0, min(3, len(rest)))) if kind == 0 else []
+                pt = [kind, S("".join(s1)), S("".join(s2))]
+            W = 1 if rng.random() < 0.1 else 0
+            ops.append([32, cnt(), W, pt] if code == 32 else [33, W, pt])
     return ops
 
 
@@ -859,6 +1044,22 @@ def gen_groups(chk, dist):
         curs = sorted(set([0, len(t), rng.randint(0, len(t))]))
         g = [[S(t), cur, fold_ops_for(t, cur)] for cur in curs]
         dist["casefold_cases"] += len(g)
+        yield g
+    # every cased code point of the running interpreter (the regenerated table covers all 2927 of them):
+    # the character next to its one-character case variants; quick takes a sample
+    cased_sorted = sorted(CASED)
+    dist["casefold_wide_cases"] = 0
+    for c in (cased_sorted if thorough else rng.sample(cased_sorted, 160)):
+        var = [v for v in (c.swapcase(), c.upper(), c.lower(), c.title(), c.casefold()) if len(v) == 1 and v != c and v in FOLD_G]
+        t = c + (var[0] if var else c) + rng.choice(FOLD_SMALL) + (var[-1] if var else c)
+        g = [[S(t), cur, fold_ops_for(t, cur)] for cur in (0, len(t))]
+        dist["casefold_wide_cases"] += len(g)
+        yield g
+    for _ in range(1200 if thorough else 120):
+        t = "".join(rng.choice(FOLD_WIDE) for _ in range(rng.choice([2, 3, 4, 6])))
+        curs = sorted(set([0, len(t), rng.randint(0, len(t))]))
+        g = [[S(t), cur, fold_ops_for(t, cur)] for cur in curs]
+        dist["casefold_wide_cases"] += len(g)
         yield g
     # a stratum of the next sizes
     for k, cnt in ((full_n + 1, 900 if thorough else 250), (full_n + 2, 350 if thorough else 80)):
@@ -939,6 +1140,255 @@ def oracle_cache_case(case, res):
 
 
 # --------------------------------------------------------------------------
+# the cache carried between DOCUMENTS (Model/C02_Cache.v, slot operations): live Document objects in
+# numbered slots; documents are created, queried (any query: it pre-seeds the shared cache according to
+# its footprint), dropped, and PRODUCED from live ones by paste_clipboard_data / insert_after /
+# insert_before / Document(d.text, d.cursor_position).  After every operation the whole entry of the
+# target text in _text_to_document_cache is compared with the model: present, the cached lines, the
+# cached line-start table (values, not only flags), whether every live equal-text Document shares that
+# one entry object, and the number of fields of the entry the model does not know.
+
+SLOT_OPNAMES = {1: "slot = Document(text, cursor)", 2: "slot.lines", 3: "slot._line_start_indexes", 4: "del slot",
+                5: "slot.<query>", 6: "dst = src.paste_clipboard_data(ClipboardData(data, type), mode, count)",
+                7: "dst = src.insert_after(text)", 8: "dst = src.insert_before(text)",
+                9: "dst = Document(src.text, src.cursor_position)"}
+SLOT_TEXTS = ["", "a", "a\nb", "ab\n\ncd\n", "x y\n z", "\u03a9\nab", "\n", "one\ntwo\nthree"]
+SLOT_DATA = ["x", "p\nq", "\n", "  ", "r\ns\nt", "yz", ""]
+SLOT_QUERIES = [[1], [2, 0], [3, 0, 0], [3, 1, 1], [4, 1], [4, -1], [5, 1], [5, -1], [6, 1, []], [7, 1, []], [8, 0], [8, 1],
+                [9], [10], [11, 1], [12], [13], [14, [97], 0, 0, 0, 1], [15, [97], 1, 0, 1], [16, [97], 0], [17, [97]],
+                [18, 1, 0], [19, 0, 0, 0], [20, 1, 0], [21, 0, 1, 0], [22, 1, 0], [23, 1, 0], [24, 40, 41, []],
+                [25, 40, 41, []], [26, [], []], [27, 1, 0], [28, 1, 0], [29, 0], [30, 0], [31]]
+
+
+def describe_slot_ops(ops):
+    out = []
+    for op in ops:
+        k = op[0]
+        if k == 1:
+            out.append("s%d = Document(%r, %d)" % (op[1], unS(op[2]), op[3]))
+        elif k in (2, 3, 4):
+            out.append({2: "s%d.lines", 3: "s%d._line_start_indexes", 4: "del s%d"}[k] % op[1])
+        elif k == 5:
+            out.append("s%d.%s%r" % (op[1], OPNAMES.get(op[2][0], "?"), tuple(op[2][1:])))
+        elif k == 6:
+            out.append("s%d = s%d.paste_clipboard_data(ClipboardData(%r, %s), %s, count=%d)" % (
+                op[2], op[1], unS(op[3]), ["CHARACTERS", "LINES", "BLOCK"][op[4]], ["EMACS", "VI_BEFORE", "VI_AFTER"][op[5]], op[6]))
+        elif k == 7:
+            out.append("s%d = s%d.insert_after(%r)" % (op[2], op[1], unS(op[3])))
+        elif k == 8:
+            out.append("s%d = s%d.insert_before(%r)" % (op[2], op[1], unS(op[3])))
+        elif k == 9:
+            out.append("s%d = Document(s%d.text, s%d.cursor_position)" % (op[2], op[1], op[1]))
+    return "; ".join(out)
+
+
+def gen_slot_cases(chk, dist):
+    rng = chk.rng
+    thorough = chk.tier == "thorough"
+    out = []
+    follow = lambda dst, other: [[2, dst], [3, dst], [9, dst, other], [5, other, [1]], [4, dst], [2, other], [3, other]]  # noqa
+    # directed: every paste kind x mode x count on a two-line clipboard entry (and a one-line one),
+    # then queries on the result and on an equal-text document made while the result is alive
+    nd = 0
+    for ty in (0, 1, 2):
+        for mode in (0, 1, 2):
+            for count in (0, 1, 2):
+                for data in ("p\nq", "x"):
+                    for t, cur in (("one\ntwo\nthree", 5), ("a", 1)):
+                        if not thorough and rng.random() < 0.5:
+                            continue
+                        pre = rng.choice([[], [[2, 0]], [[3, 0]], [[5, 0, [1]]]])
+                        post = follow(1, 2)
+                        if rng.random() < 0.5:
+                            rng.shuffle(post)
+                        out.append([-2, [[1, 0, S(t), cur]] + pre + [[6, 0, 1, S(data), ty, mode, count]] + post])
+                        nd += 1
+    for t in SLOT_TEXTS:
+        for x in ("", "\n", "z\nw"):
+            out.append([-2, [[1, 0, S(t), len(t) // 2], [7, 0, 1, S(x)], [3, 1], [8, 0, 2, S(x)], [2, 2], [9, 2, 0], [3, 0], [4, 2], [2, 0]]])
+            nd += 1
+    # random histories
+    nr = 900 if thorough else 150
+    for _ in range(nr):
+        ops, filled = [], set()
+        for _ in range(rng.randint(3, 16)):
+            r = rng.random()
+            if not filled or r < 0.18:
+                i = rng.randint(0, 3)
+                t = rng.choice(SLOT_TEXTS)
+                cur = rng.choice([0, len(t), rng.randint(0, len(t)), len(t) + 1 if rng.random() < 0.1 else 0])
+                ops.append([1, i, S(t), cur])
+                if cur <= len(t):
+                    filled.add(i)
+                continue
+            src = rng.choice(sorted(filled))
+            if r < 0.30:
+                ops.append([2, src])
+            elif r < 0.42:
+                ops.append([3, src])
+            elif r < 0.50:
+                ops.append([4, src])
+                filled.discard(src)
+            elif r < 0.66:
+                ops.append([5, src, rng.choice(SLOT_QUERIES)])
+            elif r < 0.86:
+                ty, mode = rng.randint(0, 2), rng.randint(0, 2)
+                data = rng.choice(SLOT_DATA)
+                if ty == 0 and mode == 1 and data == "":
+                    data = "x"         # (a negative cursor would result: outside the property)
+                dst = rng.randint(0, 3)
+                ops.append([6, src, dst, S(data), ty, mode, rng.choice([-1, 0, 1, 1, 2, 3])])
+                filled.add(dst)
+            elif r < 0.91:
+                dst = rng.randint(0, 3)
+                ops.append([7, src, dst, S(rng.choice(SLOT_DATA))])
+                filled.add(dst)
+            elif r < 0.95:
+                dst = rng.randint(0, 3)
+                ops.append([8, src, dst, S(rng.choice(SLOT_DATA))])
+                filled.add(dst)
+            else:
+                dst = rng.randint(0, 3)
+                ops.append([9, src, dst])
+                filled.add(dst)
+        out.append([-2, ops])
+    dist["slot_histories"] = len(out)
+    dist["slot_histories_directed"] = nd
+    dist["slot_operations"] = sum(len(c[1]) for c in out)
+    return out
+
+
+def impl_slot_case(case, queries=None):
+    """-> per op [value, [present, lines?, indexes?, shared, extra]]; `queries` collects
+    (text, cursor, op, result) of the query operations for the ordinary oracle (evaluated afterwards, so
+    that it does not disturb the cache)."""
+    import prompt_toolkit.document as m
+    from prompt_toolkit.clipboard import ClipboardData
+    from prompt_toolkit.selection import PasteMode, SelectionType
+    modes = [PasteMode.EMACS, PasteMode.VI_BEFORE, PasteMode.VI_AFTER]
+    types = [SelectionType.CHARACTERS, SelectionType.LINES, SelectionType.BLOCK]
+    live = {}
+    gc.collect()
+    out = []
+    for op in case[1]:
+        code = op[0]
+        val, tgt, t_state = [], None, None
+        try:
+            if code == 1:
+                tgt = op[1]
+                nd = m.Document(unS(op[2]), op[3])
+                val = [S(nd.text), nd.cursor_position]
+                live[tgt] = nd
+                nd = None
+            elif code in (2, 3, 5):
+                tgt = op[1]
+                d = live.get(tgt)
+                if d is not None:
+                    if code == 2:
+                        val = [S(l) for l in d.lines]
+                    elif code == 3:
+                        val = list(d._line_start_indexes)
+                    else:
+                        r = impl_op(d, op[2])
+                        if queries is not None:
+                            queries.append((d.text, d.cursor_position, op[2], r))
+                        r = None
+                d = None
+            elif code == 4:
+                d = live.pop(op[1], None)
+                t_state = d.text if d is not None else ""
+                d = None
+                gc.collect()
+            elif code in (6, 7, 8, 9):
+                tgt = op[2]
+                d = live.get(op[1])
+                if d is not None:
+                    if code == 6:
+                        nd = d.paste_clipboard_data(ClipboardData(unS(op[3]), types[op[4]]), paste_mode=modes[op[5]], count=op[6])
+                    elif code == 7:
+                        nd = d.insert_after(unS(op[3]))
+                    elif code == 8:
+                        nd = d.insert_before(unS(op[3]))
+                    else:
+                        nd = m.Document(d.text, d.cursor_position)
+                    val = [S(nd.text), nd.cursor_position]
+                    live[tgt] = nd
+                    nd = None
+                d = None
+        except AssertionError:
+            val = [1]
+            d = nd = None
+        except Hang:
+            raise
+        except Exception as ex:  # noqa
+            val = [99, S(type(ex).__name__)]
+            d = nd = None
+        if t_state is None:
+            t_state = live[tgt].text if tgt in live else ""
+        e = m._text_to_document_cache.get(t_state)
+        if e is None:
+            st = [0, [], [], 0, 0]
+        else:
+            same = [x for x in live.values() if x.text == t_state]
+            st = [1, [] if e.lines is None else [[S(l) for l in e.lines]],
+                  [] if e.line_indexes is None else [list(e.line_indexes)],
+                  int(all(x._cache is e for x in same)),
+                  len([k for k in vars(e) if k not in ("lines", "line_indexes")])]
+            same = None
+        e = None
+        out.append([val, st])
+    live.clear()
+    gc.collect()
+    return out
+
+
+def slot_state_texts(case, res):
+    """the text each reported cache entry belongs to (recomputed from the implementation's own values)"""
+    live, out = {}, []
+    for op, (val, _) in zip(case[1], res):
+        code = op[0]
+        t = None
+        if code == 1 or code in (6, 7, 8, 9):
+            dst = op[1] if code == 1 else op[2]
+            if len(val) == 2 and isinstance(val[0], list):
+                live[dst] = unS(val[0])
+            t = live.get(dst)
+        elif code == 4:
+            t = live.pop(op[1], None)
+        else:
+            t = live.get(op[1])
+        out.append(t)
+    return out
+
+
+def oracle_slot_case(case, res):
+    """Whatever the shared cache holds for a text describes THAT text (theorem C02_slots_cache_entries), every
+    lines / _line_start_indexes answer is the recomputed one (C02_slots_cache_transparent), all live
+    equal-text documents share the one entry."""
+    texts = slot_state_texts(case, res)
+    for j, (op, (val, st), t) in enumerate(zip(case[1], res, texts)):
+        empty_slot = t is None          # the operation addressed a slot without a document: nothing to judge
+        t = t or ""
+        ls = t.split("\n")
+        table = [sum(len(x) + 1 for x in ls[:k]) for k in range(len(ls))]
+        where = "after `%s`" % describe_slot_ops(case[1][:j + 1])
+        if val[:1] == [99]:
+            return ("%s raised %s (%s)" % (SLOT_OPNAMES[op[0]], unS(val[1]), where), "raise")
+        if op[0] == 2 and not empty_slot and val != [S(l) for l in ls]:
+            return ("lines of a Document with text %r is %r, not text.split(newline) (%s)" % (t, [unS(l) for l in val], where), "cache")
+        if op[0] == 3 and not empty_slot and val != table:
+            return ("_line_start_indexes of a Document with text %r is %r, not %r (%s)" % (t, val, table, where), "cache")
+        if st[0]:
+            if st[1] and st[1][0] != [S(l) for l in ls]:
+                return ("the shared line cache holds lines %r for the text %r (%s)" % ([unS(l) for l in st[1][0]], t, where), "cache")
+            if st[2] and st[2][0] != table:
+                return ("the shared line cache holds the line-start table %r for the text %r, expected %r (%s)" % (st[2][0], t, table, where), "cache")
+            if not st[3]:
+                return ("live Documents with equal text %r do not share one cache entry (%s)" % (t, where), "cache")
+    return None
+
+
+# --------------------------------------------------------------------------
 
 def nontrivial_op(op, res):
     if res[0] != 0:
@@ -949,6 +1399,14 @@ def nontrivial_op(op, res):
     if isinstance(v, list):
         return any(x != 0 for x in v) if v and all(isinstance(x, int) for x in v) else bool(v)
     return False
+
+
+def first_diff(a, m):
+    if isinstance(a, list) and isinstance(m, list):
+        for j, (x, y) in enumerate(zip(a, m)):
+            if x != y:
+                return ("op %d: %r" % (j, x), "op %d: %r" % (j, y))
+    return (str(a)[:200], str(m)[:200])
 
 
 def batches(it, max_ops):
@@ -1020,6 +1478,40 @@ def main(tier):
                    oracle_failed=lambda i: i in cbad)
     dist["cache_sequences"] = len(ccases)
 
+    # the cache carried between documents: slot histories (create / query / drop / produce)
+    scases = gen_slot_cases(chk, dist)
+    sres, sbad = [], set()
+    late = []
+    for i, c in enumerate(scases):
+        qs = []
+        try:
+            r = with_watchdog(lambda: impl_slot_case(c, qs), 20)
+        except Exception as ex:  # noqa
+            r = [[[98], [9, [], [], 9, 9]]]
+        sres.append(r)
+        chk.count_case(c, True)
+        chk.coverage["evaluations"] += len(c[1])
+        bad = oracle_slot_case(c, r)
+        if not bad:
+            late.append((i, qs))
+        if bad:
+            sbad.add(i)
+            chk.violation("oracle", bad[0], {"op": "line-cache", "family": bad[1]},
+                          {"slot_case": c, "observed": r, "clause": bad[0], "how": "see harness/c02.py impl_slot_case"})
+    for i, qs in late:
+        for (t, cur, op, rr) in qs:
+            bad = oracle_op(t, cur, op, rr, Document(t, cur))
+            if bad and i not in sbad:
+                sbad.add(i)
+                chk.violation("oracle", "%s (Document(%r, %d).%s%r -> %r inside the history `%s`)" % (
+                    bad[0], t, cur, OPNAMES[op[0]], tuple(op[1:]), rr, describe_slot_ops(scases[i][1])),
+                    {"op": OPNAMES[op[0]], "family": bad[1]},
+                    {"slot_case": scases[i], "text": t, "cursor": cur, "op": op, "observed": rr, "clause": bad[0],
+                     "how": "see harness/c02.py impl_slot_case"})
+    correspondence(chk, "c02", scases, sres, lambda c, a, m: {"op": "line-cache"},
+                   describe=lambda c, a, m: "history `%s` impl=%r model=%r" % (describe_slot_ops(c[1]), first_diff(a, m)[0], first_diff(a, m)[1]),
+                   oracle_failed=lambda i: i in sbad)
+
     for batch in batches(stream, 400000):
         cases, impl_results = [], []
         oracle_bad = set()
@@ -1090,14 +1582,15 @@ def main(tier):
         "a case = (text, cursor, list of queries); every query is evaluated on a real Document and on the Coq model and "
         "compared; evaluations counts queries. Scope: every text of length <= %s over %r x every cursor x the fixed query "
         "list of ops_for (all index/row/col arguments in range +-1, counts -2..3, every substring of length <= 2 of the text "
-        "plus absent and upper-cased needles, every flag combination, bracket limits -1..len+1), a stratum of longer texts, and random "
+        "plus absent and upper-cased needles, every flag combination, bracket limits -1..len+1, 9 pattern= regexes x counts -1..3), a case-folding stratum (21 letters exhaustively to length 2, a sample (thorough: all) of the 2927 cased code points next to their case variants, random texts over 78 cased letters of other scripts), cache slot histories (each operation counts as one evaluation), a stratum of longer texts, and random "
         "texts up to 48 characters over a 34-character alphabet (blanks of every kind, brackets, wide and astral "
         "characters). Non-trivial = the query returned a non-zero offset / non-empty value; distinct by (text, cursor, query)."
         % ("4" if chk.tier == "thorough" else "2 (35% stratum of length 3)", ALPHA))
     chk.assumptions += [
         "stdlib re is replaced by hand scanners written for the six pattern strings of document.py (compared with the regenerated strings on every run, Proofs/C02_Patterns.v) and by leftmost non-overlapping literal search for re.finditer(re.escape(sub), ...); tied to re only by this correspondence run",
-        "re.IGNORECASE is modelled by the per-character relation regenerated on every run from CPython's re over ASCII letters + the cased non-ASCII letters of gen_t_c02.FOLD_EXTRA (Gen/C02_CaseFold.v); ignore_case queries are generated only for texts/needles whose cased non-ASCII characters lie in that alphabet (theorems hold for any character equivalence)",
-        "the line cache (_text_to_document_cache) is modelled as a memo table with exactly the two fields of _DocumentCache (Model/C02_Cache.v, theorem C02_cache_transparent) and tied by create/lines/indexes/drop operation sequences on real Documents; the query models themselves are cache-free, so additionally the runner evaluates queries on fresh and long-lived Documents of equal text in shuffled order, with documents of other texts alive",
+        "re.IGNORECASE is modelled by the per-character relation regenerated on every run from CPython's re over EVERY cased code point of the interpreter (gen_t_c02.cased_code_points: 2927 with unicodedata 15.0; Gen/C02_CaseFold.v, looked up through a positive map proved equal to the pair list, proved symmetric and transitive per run); uncased characters used by the generators are listed in gen_t_c02.FOLD_UNCASED and checked there to match only themselves; ignore_case queries are generated only over cased + FOLD_UNCASED characters (the harness refuses to start otherwise); theorems hold for any character equivalence",
+        "the line cache (_text_to_document_cache) is modelled as a memo table with exactly the two fields of _DocumentCache (field list regenerated and compared in Coq, theorem C02_cache_fields) and tied by (a) create/lines/indexes/drop sequences keyed by text and (b) slot histories of live Documents: create / lines / _line_start_indexes / any query (its cache footprint is modelled) / drop / paste_clipboard_data (CHARACTERS, LINES, BLOCK x 3 modes x counts) / insert_after / insert_before / copy, comparing after every step the whole cache entry of the target text (present, cached lines VALUE, cached table VALUE, identity shared by all live equal-text Documents, unknown extra fields) with Model/C02_Cache.v; the query models themselves are cache-free (theorems C02_slots_cache_transparent/_entries say that is sound), and the runner additionally evaluates queries on fresh and long-lived Documents of equal text in shuffled order",
+        "pattern= of find_start_of_previous_word / get_word_before_cursor is modelled for compiled regexes of the forms [s1]+|[s2]+ (disjoint sets), [^s1]+ and ^[s1]* without flags (incl. the literal patterns of FuzzyCompleter); other user regexes are outside",
         "cursor positions 0..len(text) (the constructor's assertion for cursor > len is checked; negative cursors are outside the property)",
         "CPython str slicing/split/rstrip/lstrip/partition and bisect_right are re-implemented in coq/Lib/Py.v and Model/Document.v and tied by this correspondence only"]
     return chk.finish()
@@ -1106,6 +1599,21 @@ def main(tier):
 def replay(data):
     from prompt_toolkit.document import Document
     rep = data["replay"]
+    sc = rep.get("slot_case") or (rep.get("case") if rep.get("case") and rep["case"][0] == -2 else None)
+    if sc:
+        qs = []
+        r = impl_slot_case(sc, qs)
+        bad = oracle_slot_case(sc, r)
+        print("history: %s" % describe_slot_ops(sc[1]))
+        for op, x in zip(sc[1], r):
+            print("  %s %r -> value %r cache entry %r" % (SLOT_OPNAMES.get(op[0]), op[1:], x[0], x[1]))
+        for (t, cur, op, rr) in qs:
+            b2 = oracle_op(t, cur, op, rr, Document(t, cur))
+            if b2 and not bad:
+                bad = b2
+        m = run_model("c02", [sc])[0]
+        print("oracle: %s; model %s" % (bad[0] if bad else "ok", "agrees" if m == sx_norm(r) else "differs: %r" % (first_diff(sx_norm(r), m),)))
+        return 1 if bad else 0
     cc = rep.get("cache_case") or (rep.get("case") if rep.get("case") and rep["case"][0] == -1 else None)
     if cc:
         r = impl_cache_case(cc)
